@@ -136,6 +136,10 @@ for line in open(os.path.join(VERIF, 'known_findings.txt')):
     diff = sh(['git', '-C', '/repo', 'diff', commit + '~1', commit], stdout=subprocess.PIPE, text=True).stdout
     r = sh(['git', 'apply', '-R'], cwd=REPO, input=diff, text=True)
     if r.returncode != 0:
+        # a later fix touched the same lines: use the hand-resolved revert kept beside the controls
+        alt = os.path.join(VERIF, 'selftest', 'reverts', fid + '.diff')
+        r = sh(['git', 'apply', alt], cwd=REPO) if os.path.exists(alt) else r
+    if r.returncode != 0:
         report(name, False, 'fix does not reverse-apply'); restore(); continue
     rc, keys, fatal, tail = run_checks([prop])[prop]
     report(name + '/' + prop, rc == 1 and not fatal, ('-> ' + '; '.join(keys[:2]))[:150] if rc == 1 else 'rc=%d %s' % (rc, tail))
